@@ -89,7 +89,12 @@ def parse_roundtripping_metadata(text):
     ret = CommitSupplement()
     f = BytesIO(text)
     for l in f.readlines():
-        (key, value) = l.split(b":", 1)
+        if l.startswith(b"property-") and b": " in l:
+            # property names may themselves contain colons ("hg:extra:..")
+            (key, value) = l.split(b": ", 1)
+            value = b" " + value
+        else:
+            (key, value) = l.split(b":", 1)
         if key == b"revision-id":
             ret.revision_id = value.strip()
         elif key == b"parent-ids":
